@@ -2,7 +2,7 @@
 C05 — the initial tick updates every device at every depth exactly once
 (whole-simulation model with nested schedulers at any depth).
 -/
-import TickitModel.Lemmas.SimLemmas
+import TickitModel.Lemmas.SimLoop
 
 namespace Tickit
 
@@ -14,14 +14,52 @@ theorem initial_tick_complete (S : Static) (hS : S.WF) (orc : Oracle) (fuel : Na
     (∀ d, S.isDevice d → m.sim.updates d = 1) ∧
     (∀ o ∈ m.sim.obs, o.time = t0 ∧ S.isDevice o.comp) ∧
     tr.time = t0 := by
-  sorry
+  unfold masterInitial at h
+  split at h
+  · cases h
+  · rename_i L hL
+    simp only [] at h
+    split at h
+    · cases h
+    · rename_i st out hr
+      simp only [Except.ok.injEq, Prod.mk.injEq] at h
+      obtain ⟨rfl, rfl⟩ := h
+      obtain ⟨new, hobs, hnd, hown, _, hdone⟩ := tickLevel_post hS orc _ _ _ _ _ _ _ _ hr
+      obtain ⟨hdev, _⟩ := hdone
+        (fun L' hL' c hc => by rw [hL] at hL'; cases hL'; exact hc)
+        (fun s _ _ => SimSt.sched_empty s)
+      refine ⟨?_, ?_, rfl⟩
+      · intro d hd
+        have hmem := hdev d (Static.below_master hS hd.1) hd
+        show st.updates d = 1
+        rw [SimSt.updates_of_obs hobs d, sim_filter_comp_eq_one hnd hmem]
+        rfl
+      · intro o ho
+        have ho' : o ∈ new := by
+          have : st.obs = new := by simpa using hobs
+          exact this ▸ ho
+        exact ⟨(hown o ho').1, (hown o ho').2.1⟩
 
 /-- after the initial tick every nested scheduler has done its own initial tick. -/
 theorem initial_tick_marks_systems (S : Static) (hS : S.WF) (orc : Oracle) (fuel : Nat) (t0 : SimTime) (now : Int)
     (m : MasterSt) (tr : TickRec) (h : masterInitial S orc fuel t0 now = .ok (m, tr))
     (s : Comp) (hs : S.isSys s = true) (hp : (alookup S.parent s).isSome) :
     (m.sim.sched s).firstDone = true := by
-  sorry
+  unfold masterInitial at h
+  split at h
+  · cases h
+  · rename_i L hL
+    simp only [] at h
+    split at h
+    · cases h
+    · rename_i st out hr
+      simp only [Except.ok.injEq, Prod.mk.injEq] at h
+      obtain ⟨rfl, _⟩ := h
+      obtain ⟨new, _, _, _, _, hdone⟩ := tickLevel_post hS orc _ _ _ _ _ _ _ _ hr
+      obtain ⟨_, hsys⟩ := hdone
+        (fun L' hL' c hc => by rw [hL] at hL'; cases hL'; exact hc)
+        (fun s _ _ => SimSt.sched_empty s)
+      exact hsys s (Static.below_master hS hp) hs
 
 /-- a tick of any level updates each device below it at most once, all at the tick's time
 (the inner tick lies inside the outer tick, at the same time — C04's nesting clause). -/
@@ -30,6 +68,10 @@ theorem tickLevel_once (S : Static) (hS : S.WF) (orc : Oracle) (fuel : Nat) (lvl
     (h : tickLevel S orc fuel lvl t roots inCh st = .ok (st', out)) :
     (∀ d, st'.updates d ≤ st.updates d + 1) ∧
     (∃ new, st'.obs = st.obs ++ new ∧ ∀ o ∈ new, o.time = t) := by
-  sorry
+  obtain ⟨new, hobs, hnd, hown, _, _⟩ := tickLevel_post hS orc _ _ _ _ _ _ _ _ h
+  refine ⟨fun d => ?_, new, hobs, fun o ho => (hown o ho).1⟩
+  rw [SimSt.updates_of_obs hobs d]
+  have := sim_filter_comp_le_one hnd d
+  omega
 
 end Tickit
